@@ -72,10 +72,13 @@ def runLine (st : St) (line : String) : St × Option String :=
         ({ st with handles := st.handles.set (idxOf hn) (some h), m0 := { bytes := s.bytes, pos := s.pos }, hist := [], active := si },
          some (showOpen h))
   | "fault" :: rest =>
+    -- the history is re-based here; the seek latch (`seekFailed`, a function of the history) would be lost
+    if seekFailed st.hist then ({ st with dead := true }, some "unmodelled") else
     let m := st.mem
     ({ st with fault := { at_ := kvNat rest "at" 0, kind := kvNat rest "kind" 0, single := kvBool rest "single" false },
                m0 := { bytes := m.bytes, pos := m.pos }, hist := [] }, some "ok")
   | ["iolog", "on"] =>
+    if seekFailed st.hist then ({ st with dead := true }, some "unmodelled") else
     let m := st.mem
     ({ st with m0 := { m with calls := m.calls, fired := m.fired }, hist := [] }, some "ok")
   | ["iolog", "dump"] =>
